@@ -29,7 +29,8 @@ def off(env, symmetry):
             env.eq("C18", "d%s/d%s == 0 when the option is off" % k, jac.dense(k), 0 * jac.dense(k))
 
 
-@job("c18.wave", ("C18",), cfgs=[dict(ny=2, symmetry=False), dict(ny=3, symmetry=True), dict(ny=3, symmetry=False, _tier=T)], ranges=RG, cost=20)
+@job("c18.wave", ("C18",), cfgs=[dict(ny=2, symmetry=False), dict(ny=3, symmetry=True), dict(ny=3, symmetry=False, _tier=T)],
+     ranges=[(r"CL", -0.6, 0.6)] + RG, cost=20)             # lifting and down-loaded surfaces
 def wave(env, ny, symmetry):
     """wave drag: zero up to the crest-critical Mach number; beyond it CDw = K (M - Mcrit)^4 with Mcrit from the Korn
     equation, hence non-negative, with value and first three Mach-derivatives vanishing at onset, and increasing in Mach and
@@ -50,7 +51,7 @@ def wave(env, ny, symmetry):
     K = 20 * (2 if symmetry else 1)
     for path, out in env.explore(lambda: h.compute(ins)["CDw"]):
         cdw = s0(out)
-        superc = any(b for c, b in path) if env.sym else bool(M > Mcrit)
+        superc = (isinstance(cdw, S.RF) and bool(cdw.p)) if env.sym else bool(M > Mcrit)
         if not superc:
             env.eq("C18", "wave drag is zero up to the crest-critical Mach number", cdw, 0)
             continue
